@@ -626,7 +626,9 @@ func runC08(c *core.Ctx) error {
 	}
 	// typed maps keyed by a string-represented enum with renamed members: keys are spelled differently at the two levels
 	// (shared with C09, which decides acceptance; here: the two views and their lookups by key)
-	c09EnumKeys(c, c.Rand.Fork(), c.Pick(100, 10000), "C08")
+	if err := c09EnumKeys(c, c.Rand.Fork(), c.Pick(100, 10000), "C08"); err != nil {
+		return err
+	}
 	// witnesses of the known findings, replayed on the implementation
 	if err := replayWitnesses(c, func(w string, report func(string, core.Replay)) error {
 		sc, v, err := parseSchemaCase(w, 1)
@@ -693,6 +695,9 @@ func parseSchemaCase(caseLine string, skip int) (*schemaCase, core.Val, error) {
 }
 
 func replayC08(c *core.Ctx, rp core.Replay) error {
+	if strings.HasPrefix(rp.Case, "enumkey.") {
+		return replayEnumKey(c, rp, "C08")
+	}
 	sc, v, err := parseSchemaCase(rp.Case, 1)
 	if err != nil {
 		return err
